@@ -344,9 +344,12 @@ func checkC16(c c16Case, ctx *vCtx) *vFailure {
 
 	// an explicitly named configuration file that does not exist is an error
 	if c.CfgMissing && (c.Channel == "flag" || c.Channel == "env") {
-		r := run("report", "quantity")
-		if !r.failed {
-			return vFailSig("C16/missing-explicit-config-accepted", "%s: the explicitly named configuration file %s does not exist, yet the command succeeds", desc, cfgPath)
+		for _, cmd := range [][]string{{"report", "quantity"}, {"lint", logPath(1)}, {"lint", "--silent", bookPath(1)}, {"stats"}, {"print"}, {"csv", "log"}, {"csv", "database"},
+			{"csv", "database-resolved"}, {"reg"}, {"bal"}, {"summary", vFmtDay(41, layout)}, {"report", "totals"}, {"report", "unresolved"}, {"report", "element-total", "x"}} {
+			r := run(cmd...)
+			if !r.failed {
+				return vFailSig("C16/missing-explicit-config-accepted", "%s: the explicitly named configuration file %s does not exist, yet %v succeeds", desc, cfgPath, cmd)
+			}
 		}
 		return nil
 	}
